@@ -140,6 +140,9 @@ func (s *state) exec(f []string) string {
 	if r, ok := s.execGlue(f); ok {
 		return r
 	}
+	if r, ok := s.execRecv(f); ok {
+		return r
+	}
 	// option numbers are uint16
 	if len(f) > 1 && f[0] != "setpath" && f[0] != "setloc" && f[0] != "addquery" && f[0] != "resetto" && f[0] != "resetself" && f[0] != "resetslice" {
 		if v, ok := num(1); !ok || v > 65535 {
